@@ -98,7 +98,8 @@ type csvRecordsWriter struct {
 }
 
 func (w *csvRecordsWriter) Write(record []string) error {
-	w.records = append(w.records, record)
+	// the reader may reuse the record's backing array (csv.Reader.ReuseRecord)
+	w.records = append(w.records, append(make([]string, 0, len(record)), record...))
 
 	return nil
 }
